@@ -158,6 +158,19 @@ UNITS.update({
         "complete": "unbounded: every batch length and content",
         "timeout": 600,
     },
+    "U-SIGN": {
+        "backend": "verus",
+        "template": "contracts/sign.vc",
+        "trusted": ["Verus 0.2026.09.13 / Z3; vstd",
+                    "UNCHECKED: rand::thread_rng modelled as an abstract ambient byte stream (freshness, uniformity and per-thread independence of that stream are properties of `rand` and the OS)",
+                    "D4: the floating-point pipeline of sign (target, ffSampling, (t-z)B, norm rejection loop, inverse FFT, rounding) is outside the verified slice: uncontracted external calls",
+                    "hash_to_point (U-H2P), compress (U-CODEC), FalconVariant (U-VERIFY) through their contracts"],
+        "assumption_lines": [r"external_body", r"exec_allows_no_decreases_clause"],
+        "dropped": ["D4: bindings one_over_q, c_over_q_fft, capital_f_fft, f_fft, capital_g_fft, g_fft, t0, t1, bold_s (the inner loop), s2 and the rounding closure replaced by external calls",
+                    "D5: no decreases clause on the compression retry loop"],
+        "complete": "unbounded: every message and key; partial correctness of the retry loop",
+        "timeout": 600,
+    },
     "U-APPROX": {
         "backend": "verus",
         "template": "contracts/approx.vc",
@@ -321,6 +334,21 @@ PROPS.update({
         "level_text": "Partial: the three integer building blocks equal the specification's on every input (proof-level); the distribution-level statement is not claimed.",
         "level_note": "Known finding F6 is reported as KNOWN-FINDING and does not fail the check; any other failing obligation does.",
         "technique": "Kani full-domain contract harnesses (+ contract stub for approx_exp) and a Verus contract on the extracted integer core",
+    },
+})
+
+PROPS.update({
+    "C08": {
+        "title": "Every signature carries a fresh random 40-byte salt",
+        "level": "other",
+        "quick": ["U-SIGN"],
+        "thorough": [],
+        "undecided_clauses": ["uniqueness / non-repetition of salts across calls, keys and threads and the absence of constant byte positions are properties of the OS-seeded generator behind rand::thread_rng (a history-level, probabilistic statement no function contract expresses); assumed"],
+        "assumptions": [],
+        "explanation": "Partial claim, proved on the extracted text of sign (Verus): the salt that sign returns is exactly the first 40 bytes this call draws from rand::thread_rng, nothing overwrites it, and the string that is hashed to a point is that salt followed by the message. This rules out a constant, message- or key-derived, partially overwritten, re-drawn-after-hashing or otherwise recycled salt. That the generator's stream itself is fresh and unpredictable is assumed.",
+        "level_text": "Partial: the data flow of the salt inside sign is proved; the randomness source is assumed.",
+        "level_note": "thread_rng is modelled as an abstract ambient byte stream; the floating-point part of sign is sliced away (D4).",
+        "technique": "Verus contract on a mechanically extracted statement slice of the real function",
     },
 })
 
